@@ -84,3 +84,22 @@ Fixpoint failing_from {A} (f : A -> bool) (i : N) (l : list A) : list N :=
   | x :: l' => if f x then failing_from f (N.succ i) l' else i :: failing_from f (N.succ i) l'
   end.
 Definition failing {A} (f : A -> bool) (l : list A) : list N := failing_from f 0 l.
+
+(* replace the n-th element *)
+Fixpoint upd_nth {A} (n : nat) (x : A) (l : list A) : list A :=
+  match l, n with
+  | [], _ => []
+  | _ :: l', O => x :: l'
+  | y :: l', S n' => y :: upd_nth n' x l'
+  end.
+
+(* insertion sort on N, to compare recipient sets *)
+Fixpoint insert_N (x : N) (l : list N) : list N :=
+  match l with
+  | [] => [x]
+  | y :: l' => if N.leb x y then x :: l else y :: insert_N x l'
+  end.
+Definition sort_N (l : list N) : list N := fold_right insert_N [] l.
+
+Definition Ns_eqb := list_eqb N.eqb.
+Definition bools_eqb := list_eqb Bool.eqb.
